@@ -108,6 +108,8 @@ func main() {
 		cmdCrash(os.Args[2:])
 	case "fault":
 		cmdFault(os.Args[2:])
+	case "iter":
+		cmdIter(os.Args[2:])
 	default:
 		fmt.Fprintf(os.Stderr, "unknown command %q\n", os.Args[1])
 		os.Exit(2)
